@@ -31,9 +31,9 @@ def baseFont : FontMeta :=
 /-- the same font with only blank glyphs -/
 def blankFont : FontMeta := { baseFont with outline := { baseOutline with emptyGlyf := true } }
 
-/-- Every file `Write` produces for a font value in the domain (one width per glyph; a TrueType
-font has at least one non-blank glyph; the version fits its 32-bit field) is accepted by the
-consistency checks of `Read`. -/
+/-- Every file `Write` produces for a font value in the domain (one width per glyph; the version
+fits its 32-bit field) is accepted by the consistency checks of `Read` — including, since the repair
+3cdbec2, a TrueType font whose glyphs are all blank (`blankFont` below). -/
 theorem C01_write_accepted (env : Env) (F : FontMeta) (h : InDomain F) :
     readErr (codec (derive env F)) = none :=
   write_accepted env F h
@@ -44,13 +44,11 @@ theorem C01_read_write (env : Env) (F : FontMeta) (h : InDomain F) :
     merge (codec (derive env F)) = nf F :=
   read_write env F h
 
-/-- The hypothesis "a TrueType font has a non-blank glyph" of `InDomain` is forced by the code:
-with only blank glyphs the glyf table has length 0, `header.Info.Has` reports it as absent and
-`Read` rejects the file `Write` has just produced (known finding C01-empty-glyf). -/
-theorem C01_empty_glyf_rejected : ∃ (env : Env) (F : FontMeta),
-    (∀ l, F.outline.widths = some l → l.length = F.outline.numGlyphs) ∧ F.version < 4294967296 ∧
-    readErr (codec (derive env F)) = some "no-glyph-data" :=
-  ⟨exEnv, blankFont, by intro l hl; cases hl; rfl, by decide, by decide⟩
+/-- regression for the repaired finding C01-empty-glyf: the all-blank TrueType font is written,
+accepted and read back as its normal form -/
+example : InDomain blankFont ∧ readErr (codec (derive exEnv blankFont)) = none ∧
+    merge (codec (derive exEnv blankFont)) = nf blankFont :=
+  ⟨by decide, write_accepted exEnv blankFont (by decide), read_write exEnv blankFont (by decide)⟩
 
 /-- Nothing `Write` takes from its environment (today's date, float trigonometry of the caret
 slope) reaches a field of the font that is read back. -/
@@ -93,9 +91,9 @@ theorem C01_nf_idem (F : FontMeta) (h : InDomain F) : nf (nf F) = nf F :=
 
 /-- For every accepted table set the decoders can return (`Decoded`: records are codec fixed
 points with fields in the range of their binary field) that lies in none of the open finding
-classes (`Stable`: C01-bold-word, C01-no-post-underline, C01-no-hmtx-widths / -cff-widths; a file
-with post and hmtx tables can only fail the first), one write/read cycle is a fixed point: the
-re-read font equals the first-read font. -/
+classes (`Stable`: C01-bold-word, C01-no-hmtx-cff-widths, and the int16 range of CFF underline
+metrics in a file without post table), one write/read cycle is a fixed point: the re-read font
+equals the first-read font. -/
 theorem C01_fixed_point_partial (env : Env) (T : Tables) (hacc : readErr T = none) (hd : Decoded T)
     (hs : Stable T) : merge (codec (derive env (merge T))) = merge T :=
   fixed_point env T hacc hd hs
@@ -107,6 +105,14 @@ theorem C01_fixed_point_complete_files (env : Env) (T : Tables) (hacc : readErr 
     (hbold : boldWord (subfamily (merge T)) = true → (merge T).isBold = true) :
     merge (codec (derive env (merge T))) = merge T :=
   fixed_point env T hacc hd ⟨hbold, Or.inl hpost, Or.inl hhmtx⟩
+
+/-- … and for every accepted TrueType file with a post table, whether or not it has an hmtx table
+(repair feedc74). -/
+theorem C01_fixed_point_truetype (env : Env) (T : Tables) (hacc : readErr T = none) (hd : Decoded T)
+    (htt : T.scalerCFF = false) (hpost : T.post.isSome = true)
+    (hbold : boldWord (subfamily (merge T)) = true → (merge T).isBold = true) :
+    merge (codec (derive env (merge T))) = merge T :=
+  fixed_point env T hacc hd ⟨hbold, Or.inl hpost, Or.inr (Or.inl htt)⟩
 
 /-- the property as stated: every accepted file -/
 def C01_fixed_point_full : Prop :=
@@ -236,5 +242,22 @@ example : Stable goodTables where
   bold := by decide
   underline := Or.inl (by decide)
   widths := Or.inl (by decide)
+
+/-- regression for the repaired finding C01-no-hmtx-widths: the same TrueType table set without
+hhea/hmtx is accepted, read with all-zero widths, and is a fixed point -/
+def noHmtxTables : Tables := { goodTables with hmtx := none }
+
+example : readErr noHmtxTables = none ∧ (merge noHmtxTables).outline.widths = some [Dy.ofInt 0, Dy.ofInt 0] := by
+  decide
+example : merge (codec (derive exEnv (merge noHmtxTables))) = merge noHmtxTables :=
+  C01_fixed_point_truetype exEnv noHmtxTables (by decide)
+    { codecFixed := by decide
+      revision := by intro h hh; cases hh; decide
+      hmtxRange := by intro h hh; cases hh
+      postRange := by intro p hp; cases hp; exact ⟨⟨by decide, by decide⟩, ⟨by decide, by decide⟩⟩
+      cffAngle := by intro c hc; cases hc
+      caretRange := by intro h hh; cases hh
+      cffWidths := by intro l hl; cases hl }
+    rfl (by decide) (by decide)
 
 end SfntV.Props.C01
